@@ -1,6 +1,6 @@
 (* C05 - -optimize changes layout only and leaves no redundant jumps or labels. *)
 From Coq Require Import List ZArith Bool.
-From Pory Require Import Lexer Ast Emitter Sem2 SemTgt Tr Check C01Proofs EmitProps RenderSim RenderCheck LabelSim C01Final.
+From Pory Require Import Lexer Ast Emitter Sem2 SemTgt Tr Check C01Proofs EmitProps RenderSim RenderCheck LabelSim C01Final Worklist C01Main.
 Import ListNotations.
 
 (* (c1) a jump that ends a chunk never targets the chunk rendered next (it is elided instead), for any chunk order *)
@@ -57,3 +57,23 @@ Theorem optimize_equiv_validated :
                                   (run (@tfinal) (tstep St exec flag_set trainer_beaten cmp_var cmp_var_value case_matches code0) m' (jump code0 name) s)).
 Proof. exact C01Final.optimize_equiv_validated. Qed.
 Print Assumptions optimize_equiv_validated.
+
+
+(* final form: the relation checker is no longer a premise (lemma 1, Worklist.v) *)
+Theorem optimize_equiv :
+  forall (St : Type) (exec : cmd -> St -> stepres St) (flag_set trainer_beaten : text -> St -> bool)
+         (cmp_var cmp_var_value : text -> text -> St -> comparison) (case_matches : text -> text -> St -> bool)
+         (mp : option text) (tl : list text) (name : text) (glob : bool) (body : list stmt)
+         (w : wst) (code0 code1 : list instr),
+    emit_graph body = Ok w ->
+    emit_script mp tl name glob false body = Ok code0 -> emit_script mp tl name glob true body = Ok code1 ->
+    src_okb body = true ->
+    wf_render mp name (finals w) (order_of false (finals w)) code0 = true ->
+    wf_render mp name (finals w) (order_of true (finals w)) code1 = true ->
+    labels_okb body (finals w) = true -> scoped None None body ->
+    (forall m s, exists m', res_le (run (@tfinal) (tstep St exec flag_set trainer_beaten cmp_var cmp_var_value case_matches code0) m (jump code0 name) s)
+                                  (run (@tfinal) (tstep St exec flag_set trainer_beaten cmp_var cmp_var_value case_matches code1) m' (jump code1 name) s)) /\
+    (forall m s, exists m', res_le (run (@tfinal) (tstep St exec flag_set trainer_beaten cmp_var cmp_var_value case_matches code1) m (jump code1 name) s)
+                                  (run (@tfinal) (tstep St exec flag_set trainer_beaten cmp_var cmp_var_value case_matches code0) m' (jump code0 name) s)).
+Proof. exact C01Main.optimize_equiv. Qed.
+Print Assumptions optimize_equiv.
